@@ -65,6 +65,15 @@ pub fn run(s: &Session) {
         s.note(&format!("{name}_states"), serde_json::json!(st));
         s.note(&format!("{name}_transitions"), serde_json::json!(tr));
     }
+    // from before the handshake answer: the responder may also refuse or answer with a query reply, after which the
+    // connection carries no other protocol
+    {
+        let cfg = Cfg { peers: 1, max_peers: 2, max_warm: 1, max_hot: 1, max_error_count: 1, version: 13, accept_peer_sharing: 1 };
+        let pre: Vec<Op> = vec![Op::Include(0), Op::Housekeeping, Op::Connected(0), Op::DeliverSent(0)];
+        let (st, tr) = bfs(s, "exhaustive-v13-from-unanswered-proposal", &cfg, &pre, &alphabet(), s.pick(6, 8), &mode, &|w: &World| w.sends >= 1 && w.replies >= 1);
+        s.note("exhaustive-v13-from-unanswered-proposal_states", serde_json::json!(st));
+        s.note("exhaustive-v13-from-unanswered-proposal_transitions", serde_json::json!(tr));
+    }
     // the responder negotiates peer sharing off (Some(0)) or leaves the field out: the initiator must not speak that protocol
     for (name, ps) in [("exhaustive-v13-peer-sharing-off", 0u8), ("exhaustive-v13-no-peer-sharing-field", 2)] {
         let cfg = Cfg { peers: 1, max_peers: 2, max_warm: 1, max_hot: 1, max_error_count: 1, version: 13, accept_peer_sharing: ps };
